@@ -148,6 +148,22 @@ def late_user(x):
     return aux.late(x) if hasattr(aux, "late") else -1
 
 
+def late_helper(x):
+    return aux.late(x) if hasattr(aux, "late") else -1
+
+
+@memento_function(cluster="vp", version="pinned-1")
+def late_pinned(x):
+    vrec.REC.enter("late_pinned", x)
+    return late_helper(x)
+
+
+@memento_function(cluster="vp")
+def late_top(x):
+    vrec.REC.enter("late_top", x)
+    return late_pinned(x)
+
+
 from . import aux
 '''
 
@@ -193,6 +209,17 @@ def dynamic_scenarios(root):
             fails.append(dict(clause="declared-call-allowed", scenario="late-bound-attribute", got=out[5]["result"][:3]))
     except Exception as e:
         fails.append(dict(clause="dependencies-computable", scenario="late-bound-attribute", error=repr(e), out=out))
+    # the same below an explicitly versioned function (its version string does not change): look, bind, look again
+    seq = [["import"], ["deps", "late_top"], ["deps", "late_pinned"], ["bind", "aux", "late", "secret"], ["deps", "late_top"], ["deps", "late_pinned"]]
+    out = vrun.child(dict(root=root, pkg=pkg, store=os.path.join(root, "store3"), actions=seq))
+    try:
+        if out[1]["trans"] != ["late_pinned"] or out[1]["edges"] != [["late_top", "late_pinned"]] or out[2]["trans"] != []:
+            fails.append(dict(clause="transitive-dependencies-exact", scenario="late-bound-attribute-below-pinned-function", when="before", got=[out[1], out[2]]))
+        if out[4]["trans"] != ["late_pinned", "secret"] or sorted(out[4]["edges"]) != [["late_pinned", "secret"], ["late_top", "late_pinned"]] \
+                or out[5]["trans"] != ["secret"] or out[5]["edges"] != [["late_pinned", "secret"]]:
+            fails.append(dict(clause="graph-links-exact", scenario="late-bound-attribute-below-pinned-function", when="after", got=[out[4], out[5]]))
+    except Exception as e:
+        fails.append(dict(clause="dependencies-computable", scenario="late-bound-attribute-below-pinned-function", error=repr(e), out=out))
     return fails
 
 
@@ -213,11 +240,22 @@ def names_scenario(root):
         '@memento_function(cluster="vp")\ndef report(x):\n    price_history(x)\n    m10(x)\n    return globals()["pri" + "ce"](x)\n\n\n'
         '@memento_function(cluster="vp")\ndef report2(x):\n    m10(x)\n    return globals()["m" + "1"](x)\n\n\n'
         '@memento_function(cluster="vp")\ndef load(x):\n    return aux.load(x) + 1\n\n\n'
-        '@memento_function(cluster="vp")\ndef total(x):\n    return load(x)\n')
+        '@memento_function(cluster="vp")\ndef total(x):\n    return load(x)\n\n\n'
+        # memento functions behind wrappers that are not plain functions (objects with __wrapped__)
+        'import functools\n\n\nclass Timed:\n    def __init__(self, fn):\n        functools.update_wrapper(self, fn)\n        self.fn = fn\n\n'
+        '    def __call__(self, *a, **k):\n        return self.fn(*a, **k)\n\n\n'
+        'timed_price = Timed(price)\ncached_m1 = functools.lru_cache(maxsize=None)(m1)\n\n\n'
+        'def via_wrappers(x):\n    return cached_m1(x)\n\n\n'
+        '@memento_function(cluster="vp")\ndef wrapped_user(x):\n    return [timed_price(x), via_wrappers(x)]\n\n\n'
+        # a nested lambda / inner function whose parameter or local has the name of a global the enclosing body uses
+        '@memento_function(cluster="vp")\ndef rank(x):\n    best = max([x, x + 1], key=lambda price: -price)\n    return price(best)\n\n\n'
+        'def summary(x):\n    def fmt(m10):\n        aux = m10\n        return aux\n    return fmt(m10(x)) + aux.load(x)\n\n\n'
+        '@memento_function(cluster="vp")\ndef summarize(x):\n    return summary(x)\n')
     fails = []
     out = vrun.child(dict(root=root, pkg=pkg, store=os.path.join(root, "store_names"),
                           actions=[["import"], ["call", "report", 1], ["call", "report2", 1], ["deps", "load"], ["call", "load", 2],
-                                   ["deps", "total"], ["call", "total", 3]]))
+                                   ["deps", "total"], ["call", "total", 3], ["deps", "wrapped_user"], ["call", "wrapped_user", 4],
+                                   ["deps", "rank"], ["call", "rank", 5], ["deps", "summarize"], ["call", "summarize", 6]]))
     try:
         for i, who in ((1, "report"), (2, "report2")):
             res = out[i]["result"]
@@ -231,6 +269,11 @@ def names_scenario(root):
             fails.append(dict(clause="transitive-dependencies-exact", scenario="same-function-name-in-two-modules", fn="total", got=out[5]))
         if out[6]["result"] != ["ok", 7]:
             fails.append(dict(clause="declared-call-allowed", scenario="same-function-name-in-two-modules", fn="total", got=out[6]["result"][:3]))
+        for (i, who, trans, val) in ((7, "wrapped_user", ["m1", "price"], [5, 14]), (9, "rank", ["price"], 6), (11, "summarize", ["load", "m10"], 118)):
+            if out[i]["trans"] != trans:
+                fails.append(dict(clause="transitive-dependencies-exact", scenario="wrappers-and-shadowing-parameters", fn=who, got=out[i]["trans"], expected=trans))
+            if out[i + 1]["result"] != ["ok", val]:
+                fails.append(dict(clause="declared-call-allowed", scenario="wrappers-and-shadowing-parameters", fn=who, got=out[i + 1]["result"][:3]))
     except Exception as e:
         fails.append(dict(clause="dependencies-computable", scenario="names", error=repr(e), out=out))
     return fails
